@@ -230,3 +230,25 @@ B('purge-map-to-question-mark', 'src/channel.rs', "        self.call::<_, QueueP
 B('if-let-to-match-in-cancel-arm', CST, "                if let Some(tx) = slot.consumers.remove(&consumer_tag) {\n                    send(&tx, ConsumerMessage::ServerCancelled)?;\n                }", "                match slot.consumers.remove(&consumer_tag) {\n                    Some(tx) => send(&tx, ConsumerMessage::ServerCancelled)?,\n                    None => {}\n                }", ['C11', 'C07', 'C04'])
 B('new-public-api-method', 'src/channel.rs', "    pub fn recover(&self, requeue: bool) -> Result<()> {", "    /// Convenience: prefetch one message at a time.\n    pub fn qos_one(&self) -> Result<()> {\n        self.qos(0, 1, false)\n    }\n\n    pub fn recover(&self, requeue: bool) -> Result<()> {", ['C04', 'C12', 'C05', 'C07'])
 B('helper-in-handle', HDL, "        let buf = self.make_buf(method);\n        self.send(IoLoopMessage::Send(buf))\n    }", "        let msg = self.frame_message(method);\n        self.send(msg)\n    }\n\n    fn frame_message<M: IntoAmqpClass>(&mut self, method: M) -> IoLoopMessage {\n        let buf = self.make_buf(method);\n        IoLoopMessage::Send(buf)\n    }", ['C01', 'C04', 'C12', 'C13'])
+
+
+def BP(name, patch, properties):
+    """behaviour-preserving edit given as a patch file under selftest/patches/"""
+    import os
+    BENIGN.append({'name': name, 'properties': properties, 'edit': {'kind': 'patch', 'path': os.path.join(os.path.dirname(os.path.abspath(__file__)), 'patches', patch)}})
+
+
+# the seal gate of the producers moved into a closure-taking helper (drain_written left alone: the behaviour-preserving half of seeded/C18-3)
+BP('gate-helper-with-closure', 'benign-gate-helper-with-closure.diff', ['C01', 'C08', 'C18', 'C07', 'C20', 'C05'])
+
+# the explicit-id rejection extracted into a Result-returning helper used with `?`
+B('extract-id-check-helper', SLOTS, "        if channel_id == 0 || channel_id > self.channel_max {\n            return UnavailableChannelIdSnafu { channel_id }.fail();\n        }\n        match self.slots.entry(channel_id) {",
+  "        self.check_explicit_id(channel_id)?;\n        match self.slots.entry(channel_id) {", ['C04', 'C07', 'C10', 'C15', 'C20'])
+BENIGN[-1]['edit2'] = {'kind': 'sub', 'file': SLOTS, 'old': "    pub(crate) fn remove(&mut self, channel_id: u16) -> Option<T> {",
+                       'new': "    fn check_explicit_id(&self, channel_id: u16) -> Result<()> {\n        if channel_id == 0 || channel_id > self.channel_max {\n            return UnavailableChannelIdSnafu { channel_id }.fail();\n        }\n        Ok(())\n    }\n\n    pub(crate) fn remove(&mut self, channel_id: u16) -> Option<T> {"}
+
+# clippy's legacy_numeric_constants modernisation: u16::max_value() -> u16::MAX etc., crate-wide
+BP('int-max-consts', 'benign-int-max-consts.diff', ['C02', 'C07', 'C10', 'C15', 'C16', 'C18', 'C20'])
+
+# named instead of wildcard loop bindings, a local inlined, two locals hoisted (token, chunk)
+BP('locals-and-wildcards', 'benign-locals-and-wildcards.diff', ['C01', 'C05', 'C07', 'C08', 'C11', 'C13', 'C17', 'C18', 'C20'])
